@@ -104,14 +104,24 @@ def run_one(ctx, mode, cfg, tag, model=True):
     o = open(ops, errors="replace").read().splitlines()
     div = None
     n = min(len(c), len(l))
-    # the abstract-machine shadows (twshadow / twgshadow) suspend themselves at the one known concrete step that is not an abstract
-    # action (C01Refine.cmpOk_is_needed; Driver/Run.lean: Sys.gapAt): nothing is claimed after that line, the marker on the model's
-    # `end` line is counted here and not treated as a divergence (a FAILED marker is)
+    # the abstract-machine shadows (twshadow / twgshadow): the one known concrete step that is not an action of the content-rule
+    # machines (C01Refine.cmpOk_is_needed; Driver/Run.lean: Sys.gapAt: speculation on a doomed entry) IS an action of the machine with
+    # the code's straggler rule (Model/TimeWarpD.lean, theorems Props/C01GlueD.lean), which the twg shadow steps (TWD.step? with the
+    # split point the code used). The content-level shadow hands the run over to it (HANDOVER marker); the number of such steps is
+    # reported (SPECULATED marker). These markers on the model's `end` line are counted here and not treated as a divergence; a
+    # SUSPENDED marker (no live companion shadow; should not occur any more) is counted too; a FAILED marker is a divergence.
     suspended = []
-    if l and l[-1].startswith("end ") and "-SHADOW-SUSPENDED" in l[-1] and "-SHADOW-FAILED" not in l[-1]:
+    handed = []
+    speculated = []
+    if l and l[-1].startswith("end ") and "-SHADOW-FAILED" not in l[-1]:
         import re
+        tail = r" abstract steps: ext \d+: .*?\(C01Refine\.cmpOk_is_needed\)"
         suspended = re.findall(r"(TWG?)-SHADOW-SUSPENDED after (\d+) abstract steps", l[-1])
-        l[-1] = re.sub(r" TWG?-SHADOW-SUSPENDED after \d+ abstract steps: ext \d+: .*?\(C01Refine\.cmpOk_is_needed\)", "", l[-1])
+        handed = re.findall(r"TW-SHADOW-HANDOVER after (\d+) abstract steps", l[-1])
+        speculated = re.findall(r"TWD-SHADOW-SPECULATED (\d+) of (\d+) abstract steps", l[-1])
+        l[-1] = re.sub(r" TWG?-SHADOW-SUSPENDED after \d+" + tail, "", l[-1])
+        l[-1] = re.sub(r" TW-SHADOW-HANDOVER after \d+" + tail, "", l[-1])
+        l[-1] = re.sub(r" TWD-SHADOW-SPECULATED \d+ of \d+" + tail, "", l[-1])
     for i in range(n):
         if c[i] != l[i]:
             div = {"line": i + 1, "op": o[i] if i < len(o) else "?", "impl": c[i], "model": l[i]}
@@ -121,6 +131,8 @@ def run_one(ctx, mode, cfg, tag, model=True):
     res["div"] = div
     res["lines"] = n
     res["suspended"] = suspended
+    res["handed"] = handed
+    res["speculated"] = speculated
     res["sample"] = [x for x in c if x.split()[0] in ("rb", "fwd", "fdone", "antil", "finilp")][:3]
     res["finals"] = sorted(x.split(" seq=")[0] for x in c if x.startswith("finilp"))
     for f in (ops, cf, lf):
@@ -624,6 +636,10 @@ def tw_matrix(ctx, n_quick, n_thorough, salt=0, jobs=12):
     * odd configurations: V2-ONLY GenModel mode (t0 bit 1: zero-delay forwards of identical content) and the INSTRUMENTED machine
       (Model/TimeWarpG.lean, ghost creation order; Props/C01GlueV2.lean), `tw=2`: actions are called with the tagged message (content +
       creation step), histories are compared as (content, creation step) pairs; every other one of them runs BOTH shadows (`tw=3`).
+    The instrumented shadow steps TWD.step? (Model/TimeWarpD.lean: the same machine with the straggler rule of the CODE; Props/C01GlueD.lean;
+    with no extra entry kept it IS TWG.step?): where the code speculates on a doomed entry (C01Refine.cmpOk_is_needed) it is called with
+    the split point the code used. The content-level shadow (which cannot follow that step) always runs with this companion and hands
+    the run over to it there. No run is suspended any more.
     Cost is quadratic in the history length, hence small runs."""
     import concurrent.futures
     if not build(ctx):
@@ -643,9 +659,21 @@ def tw_matrix(ctx, n_quick, n_thorough, salt=0, jobs=12):
         if i % 2 == 1:
             c.update({"t0": c["t0"] | 2, "types": max(c["types"], 3), "tw": 3 if i % 4 == 3 else 2})
         cfgs.append(c)
+    # pinned configurations (corpus/doomed_speculation_cfgs.json) whose run speculates on a doomed entry: the TWD shadow must follow them
+    # through (one with the content-level shadow + hand-over, one with the instrumented shadow alone)
+    try:
+        pinned = json.load(open(os.path.join(vlib.VERIF, "corpus", "doomed_speculation_cfgs.json")))["configs"][:2]
+    except (OSError, ValueError, KeyError):
+        pinned = []
+    for k, pc in enumerate(pinned):
+        c = dict(pc["cfg"])
+        c["tw"] = 1 if k == 0 else 2
+        cfgs.append(c)
     agg = Agg()
     n_v2 = n_twg = 0
     susp = []
+    spec = []
+    n_handed = 0
     with concurrent.futures.ThreadPoolExecutor(max_workers=jobs) as ex:
         for r in ex.map(lambda ic: run_one(ctx, "par", ic[1], "tw%d" % ic[0]), enumerate(cfgs)):
             agg.add(r)
@@ -653,13 +681,18 @@ def tw_matrix(ctx, n_quick, n_thorough, salt=0, jobs=12):
             n_twg += 1 if r["cfg"]["tw"] & 2 else 0
             if r.get("suspended"):
                 susp.append({"cfg": r["cfg"], "suspended": r["suspended"]})
+            if r.get("speculated"):
+                spec.append({"cfg": r["cfg"], "speculated": r["speculated"]})
+            n_handed += 1 if r.get("handed") else 0
     ctx.oblige("refinement:abstract Time Warp machines shadow %d real runs (content-level machine / C01Glue on %d strictly causal "
                "configurations; INSTRUMENTED machine TWG / C01GlueV2, messages tagged with their creation step, on %d V2-only "
                "configurations with zero-delay forwards of identical content): every process_msg is an enabled abstract action, "
                "histories agree after every step, every adopted GVT is a lower bound of the abstract pending set (%d trace lines, %d "
-               "forward steps, %d rollbacks, %d GVT values; %d runs suspended at the known non-refining step cmpOk_is_needed)"
+               "forward steps, %d rollbacks, %d GVT values; %d runs speculated on a doomed entry (cmpOk_is_needed) and were followed through "
+               "by the machine with the code's straggler rule TWD / C01GlueD, %d of them handed over by the content-level shadow; "
+               "%d runs suspended)"
                % (agg.runs, agg.runs - n_v2, n_twg, agg.lines, agg.tot.get("fwd", 0), agg.tot.get("rollbacks", 0),
-                  agg.tot.get("gvt", 0), len(susp)),
+                  agg.tot.get("gvt", 0), len(spec), n_handed, len(susp)),
                not agg.divs, json.dumps({"cfg": agg.divs[0]["cfg"], "div": agg.divs[0]["div"]}) if agg.divs else "")
     for r in agg.crashes[:2]:
         ctx.violation("runtime-crash", {"cfg": r["cfg"], "output": r["out"][-500:]}, True)
@@ -667,7 +700,9 @@ def tw_matrix(ctx, n_quick, n_thorough, salt=0, jobs=12):
                                                  "rollbacks": agg.tot.get("rollbacks", 0), "anti_messages": agg.tot.get("antis", 0),
                                                  "gvt_values_checked": agg.tot.get("gvt", 0), "outcomes": agg.outcomes,
                                                  "v2_only_configurations": n_v2, "instrumented_machine_runs": n_twg,
-                                                 "suspended_at_cmpOk_gap": susp[:5], "suspended_runs": len(susp)}
+                                                 "suspended_at_cmpOk_gap": susp[:5], "suspended_runs": len(susp),
+                                                 "speculated_on_doomed_entry": spec[:5], "speculated_runs": len(spec),
+                                                 "handed_over_runs": n_handed}
     return agg
 
 
